@@ -152,6 +152,14 @@ pub fn enum_def(e: &EnumSpec, o: &EnumOpts) -> String {
             }
         }
     }
+    let noise = |s: &mut String, slot: u8| {
+        for (sl, t) in &e.noise {
+            if *sl == slot {
+                let _ = writeln!(s, "{}", t);
+            }
+        }
+    };
+    noise(&mut s, 0);
     let mut ds: Vec<String> = o.extra_std_derives.iter().map(|d| d.to_string()).collect();
     for d in &e.derives {
         ds.push(format!("{}{}", o.derive_prefix, d));
@@ -159,13 +167,16 @@ pub fn enum_def(e: &EnumSpec, o: &EnumOpts) -> String {
     if !ds.is_empty() {
         let _ = writeln!(s, "#[derive({})]", ds.join(", "));
     }
+    noise(&mut s, 1);
     if let Some(r) = &e.repr {
         let _ = writeln!(s, "#[repr({})]", r);
     }
+    noise(&mut s, 2);
     for grp in &e.groups {
         let items: Vec<String> = grp.iter().map(|a| eattr(a, o.err_ty, o.err_fn)).collect();
         let _ = writeln!(s, "#[strum({})]", items.join(", "));
     }
+    noise(&mut s, 3);
     if let Some(d) = &e.disc_opts {
         for doc in &d.docs {
             let _ = writeln!(s, "#[strum_discriminants(doc = {})]", lit(doc));
@@ -183,6 +194,7 @@ pub fn enum_def(e: &EnumSpec, o: &EnumOpts) -> String {
             let _ = writeln!(s, "#[strum_discriminants({})]", p);
         }
     }
+    noise(&mut s, 4);
     let _ = writeln!(s, "{} enum {}{}{} {{", e.vis, o.name, g.decl, g.where_clause);
     for (vi, v) in e.variants.iter().enumerate() {
         let mut docs = String::new();
@@ -650,7 +662,8 @@ pub fn module_repr(e: &EnumSpec, o: &ModOpts) -> ModuleSrc {
     let r = e.repr_int.clone().unwrap_or_else(|| "usize".to_string());
     let ty = format!("{}{}", name, g.inst);
     src.push(&format!("impl vrt::reprfam::RGlue for {} {{", ty));
-    src.push(&format!("    fn from_repr(d: i128) -> Option<Option<Self>> {{ let x: {} = ::core::convert::TryFrom::try_from(d).ok()?; Some(Self::from_repr(x)) }}", r));
+    // the parameter type of from_repr is part of the statement: the repr integer type, usize if none
+    src.tagged(&format!("    fn from_repr(d: i128) -> Option<Option<Self>> {{ let x: {} = ::core::convert::TryFrom::try_from(d).ok()?; Some(Self::from_repr(x)) }}", r), "C06:discriminant-type");
     let fieldless = e.variants.iter().all(|v| v.kind == Kind::Unit);
     if fieldless && !e.has_generics() && !e.variants.is_empty() {
         src.push("    fn as_repr(&self) -> Option<i128> { Some(match self {");
